@@ -8,7 +8,7 @@ from model_lang import compare, dump_to_plain
 from model_store import Store
 from runner import Failure, Outcome, h64
 from schema import (HAND, emit_schema, F_MULTI, F_TITLE, F_NO_TITLE_DUPES, F_NODEFAULT, F_LIST,
-                    o_int, o_float, o_bool, o_str, o_list, o_sec)
+                    o_int, o_float, o_bool, o_str, o_list, o_sec, o_simple)
 
 SCHEMA = [
     o_int("i", 5), o_str("s", "d"), o_list("int", "il", "{10, 20}"), o_list("str", "sl", None), o_list("float", "fl", "{1.5}"),
@@ -17,6 +17,7 @@ SCHEMA = [
     o_sec("tm", [o_int("x", 7), o_str("y", "why")], F_MULTI | F_TITLE),
     o_sec("tu", [o_int("x", 7)], F_MULTI | F_TITLE | F_NO_TITLE_DUPES),
     o_sec("multi", [o_int("x", 7), o_sec("in", [o_int("v", 1)], F_MULTI)], F_MULTI),
+    o_simple("int", "si", 5), o_simple("str", "ss", "d"),          # CFG_SIMPLE_INT / CFG_SIMPLE_STR: value in the application's variable
 ]
 HAND["c09"] = SCHEMA
 STARTS = {
@@ -78,6 +79,15 @@ def ops():
         O.append(("rmtsec %s %s" % (sec, title), ["rmtsec", 1, H(sec), H(title)], lambda m, sec=sec, title=title: m.rmtsec(sec, title)))
     typed("setint", "int", "multi=1|in=1|v", 0, "73", 73)
     typed("setint", "int", "multi=1|in=|v", 0, "74", 74)          # empty qualifier: does not resolve
+    # "simple" options answer to the same calls as ordinary scalars
+    typed("setint", "int", "si", 0, "3", 3)
+    typed("setint", "int", "si", 1, "4", 4)                       # index beyond a scalar
+    typed("setstr", "str", "ss", 0, "v", "v")
+    typed("setstr", "str", "si", 0, "x", "x")                     # wrong type
+    for path, texts in (("si", ["6"]), ("si", ["zz"]), ("ss", ["m"])):
+        O.append(("setmulti %s %r" % (path, texts), ["setmulti", 1, H(path), len(texts)] + [H(t) for t in texts],
+                  lambda m, path=path, texts=texts: m.setmulti(path, texts)))
+    O.append(("addlist si (scalar)", ["addlist", 1, H("si"), "i", 1, "1"], lambda m: m.setlist("si", "int", [1], True)))
     for path in ("tm=a", "tm=new", "tm", "multi=1", "multi=7", "single", "nosuch", "tu=t1", "multi=1|in=", "multi=1|in=1", "multi=0|in"):
         O.append(("rmsec %s" % path, ["rmsec", 1, H(path)], lambda m, path=path: m.rmsec(path)))
     return O
@@ -91,7 +101,7 @@ class C09:
     level = "exploration"
     variants = ("fast", "asan")
     rule = ("all sequences of length <= 3 (quick: from the initial state, <= 2 from three parsed states; thorough: <= 3, <= 4 from the initial state) over an alphabet of %d concrete calls (typed setters at "
-            "indices 0/1/size/beyond on scalars, lists, nested and missing options and wrong types; setlist/addlist with 0-3 "
+            "indices 0/1/size/beyond on scalars, lists, CFG_SIMPLE_* options, nested and missing options and wrong types; setlist/addlist with 0-3 "
             "values; setmulti; addtsec new/existing; rmnsec/rmtsec/rmsec present/missing) from the initial state and three "
             "parsed states, plus Hypothesis sequences up to length 30. Oracle: abstract store model; after every call the "
             "return value and the full tree (sizes, values, titles in order, MODIFIED of value options). Non-trivial = two "
